@@ -14,7 +14,7 @@ VOCAB = [("a", 0), ("b", 1), ("c", 2), ("d", 5), ("e", 9), ("sil", 10), ("<unk>"
 TOK2ID = dict(VOCAB)
 ID2TOK = {v: k for k, v in VOCAB}
 WORDS = ["a", "b", "c", "d", "e", "x-1"]
-ID_POOL = ["u1", "u10", "u1.a", "u2", "spk-3", "a", "ab", "abc", "Z9", "u1.a.b", "m_4", "k.0"]
+ID_POOL = ["u1", "u10", "u1.a", "u2", "spk-3", "a", "ab", "abc", "Z9", "u1.a.b", "m_4", "k.0", "a+b", "x=y", "100%", "\u00dc-1", "u,1", "0012", "sw02001-A", "sw02001-B", "~t", "q#7"]
 
 
 def gen_naming(rng):
@@ -181,7 +181,7 @@ class Trn(Pipeline):
 
     @staticmethod
     def gen(rng, sc):
-        n = rng.choice([0, 1, 2, 3, 4, 6, 8])
+        n = rng.choice([0, 1, 2, 3, 4, 6, 8, 8, 20])
         alts = rng.random() < 0.5
         utts = []
         for uid in gen_ids(rng, n):
@@ -275,7 +275,7 @@ class Ctm(Pipeline):
 
     @staticmethod
     def gen(rng, sc):
-        n = rng.choice([0, 1, 2, 3, 4, 6])
+        n = rng.choice([0, 1, 2, 3, 4, 6, 6, 18])
         mapping = rng.choice(["none", "wc2utt", "utt2wc"])
         fs = rng.choice([10.0, 10.0, 20.0, 12.5, 25.0, 16.0, 15.0, 30.0])
         utts = []
@@ -433,7 +433,7 @@ class Tg(Pipeline):
 
     @staticmethod
     def gen(rng, sc):
-        n = rng.choice([0, 1, 2, 3, 4])
+        n = rng.choice([0, 1, 2, 3, 4, 4, 14])
         prec = rng.choice([1, 2, 3, 3])
         unit = 10 ** (3 - prec)  # ms per print unit
         utts = []
@@ -1064,6 +1064,14 @@ class Chunk(Pipeline):
                 if (ref[-1][1], T) in segs:
                     ref.pop()
             utts.append({"id": uid, "T": T, "ali": ali, "ref": ref})
+        if rng.random() < 0.004:
+            # one very long utterance: more than 1024 windows (block sizes, index widths)
+            T = 1100
+            ali = [(t // 37) % 4 for t in range(T)]
+            ref = [[rng.randrange(6), a, a + rng.randrange(1, 4)] for a in sorted(rng.sample(range(0, T - 4), 12))] + [[2, -1, 5]]
+            return {"utts": [{"id": "long", "T": T, "ali": ali, "ref": ref}], "policy": "fixed", "window": "symmetric", "lobe": 0, "pad_mode": None, "pad_constant": 0.0,
+                    "partial": False, "retain": rng.random() < 0.5, "salt": rng.randrange(1000), "with_ali": True, "with_ref": True, "idx_names": False,
+                    "subdirs": ["feat", "ali", "ref"], "huge": True}
         return {"utts": utts, "policy": rng.choice(["fixed", "ali", "ref"]), "window": rng.choice(["symmetric", "causal", "future"]), "lobe": rng.choice([0, 0, 1, 2, 3]),
                 "pad_mode": rng.choice([None, None, "constant", "replicate", "reflect"]), "pad_constant": rng.choice([0.0, -1.0, 2.0]), "partial": rng.random() < 0.3,
                 "retain": rng.random() < 0.25, "salt": rng.randrange(1000), "with_ali": rng.random() < 0.8, "with_ref": rng.random() < 0.8, "idx_names": idx_names,
